@@ -93,6 +93,13 @@ CHECKS = {
             'explicit code and once on a fresh report; oracle: returns, completes (subset), same issues, no extra feedback, lines in range',
             'Every program of the enumerated families is analysed repeatedly; raising, internal failure inside the subset, '
             'non-idempotence, non-determinism and out-of-range lines are violations.', '2/C18'),
+    'C09': ('bounded-exhaustive flow-grammar programs on the real TIFA with an exhaustive path oracle: exact part = all sequences of '
+            '<=2 (3 in thorough) depth-1 statements, every depth-2 statement, if-statements with 2-statement blocks, with every '
+            'combination of branch outcomes enumerated symbolically; no-miss part = all sequences of <=2 (3) statements with '
+            'if/while/for/def bodies, each executed under CPython for every vector of branch outcomes and 0/1/2 loop iterations',
+            'Every program of the bounded grammar is analysed and every one of its execution paths enumerated; per-read '
+            'diagnoses and unused-variable reports must equal the path verdicts (exact part) and no observed name error may go '
+            'unreported (no-miss part).', '2/C09'),
 }
 
 PENDING = ['C02', 'C03', 'C04', 'C05', 'C06', 'C07', 'C08', 'C09', 'C10', 'C11', 'C12', 'C13', 'C14', 'C15',
